@@ -240,6 +240,16 @@ def _worker(args):
         e = ctx.export()
         e['error'] = traceback.format_exc()
         return e
+    finally:
+        # pool workers end without running atexit handlers: remove this task's scratch working directory here
+        try:
+            from . import cli
+            if cli._scratch:
+                import shutil
+                shutil.rmtree(cli._scratch, ignore_errors=True)
+                cli._scratch = None
+        except Exception:
+            pass
     return ctx.export()
 
 
